@@ -340,6 +340,28 @@ fn overrun_cases<W: Write>(out: &mut W, prop: &str, rng: &mut Rng) {
     }
 }
 
+/// chunk-offset tables whose entry count crosses the 8- and 16-bit boundaries (a table of 65536 32-bit entries is
+/// 256 KiB: an hour of video at one chunk per 50 ms), next to a small table in a second track; media before the
+/// movie box, so every entry is relocated
+fn many_entries<W: Write>(out: &mut W, prop: &str, rng: &mut Rng) {
+    for (k, &n) in [255usize, 256, 257, 65535, 65536, 65537].iter().enumerate() {
+        for co64 in [false, true] {
+            if prop != "C01" && (n != 65536 || co64) && n != 257 {
+                continue;
+            }
+            let ftyp = Item::Payload(b"ftyp", Enc::S32, ftyp_payload(rng, true, 1, 0));
+            let base = 28 + rng.below(40);
+            let big = TrakSpec { co64, entries: (0..n as u64).map(|i| base + i * 3 + rng.below(3)).collect(), junk: 0, enc: [Enc::S32; 5], dup: 0 };
+            let small = TrakSpec { co64: !co64, entries: vec![base, base + 7, base + 1000], junk: 0, enc: [Enc::S32; 5], dup: 0 };
+            let traks = if k % 2 == 0 { vec![big, small] } else { vec![small, big] };
+            let moov = Item::Payload(b"moov", Enc::S32, moov_payload(rng, &traks, false));
+            let mdat = Item::Sized(b"mdat", Enc::S32, 200 + 3 * n as u64);
+            let s = build(&[ftyp, mdat, moov]);
+            emit(out, prop, &format!("manyentries-{n}-{}", if co64 { "co64" } else { "stco" }), &s, &Cfg::default(), if k % 2 == 0 { Kind::Seekable } else { Kind::Strict });
+        }
+    }
+}
+
 pub fn run<W: Write>(prop: &str, opts: &Opts, out: &mut W) {
     let mut rng = Rng::new(opts.seed ^ 0x4d50_3400 ^ (prop.as_bytes()[2] as u64) << 8 ^ prop.as_bytes()[1] as u64);
     let thorough = opts.tier_thorough;
@@ -367,6 +389,7 @@ pub fn run<W: Write>(prop: &str, opts: &Opts, out: &mut W) {
                 overrun_cases(out, prop, &mut rng);
                 top_pathologies(out, prop, &mut rng);
             }
+            "C01" | "C02" | "C04" => many_entries(out, prop, &mut rng),
             _ => {}
         }
     }
